@@ -236,6 +236,23 @@ def build_geo(cls, rng, variant=0):
     raise RuntimeError("could not build a %s state with 0 < norm <= %d" % (cls, DENMAX))
 
 
+def geo_from_state(cls, dims, psi):
+    """a two-site network whose dense state is exactly the given one (S->C: states enumerated by TLC):
+    site 0 carries the identity, site 1 the amplitude matrix; as an open MPS or as a generic vector"""
+    import quimb.tensor as qtn
+
+    d0, d1 = [int(d) for d in dims]
+    a = np.array([complex(re, im) for re, im in psi], dtype=complex).reshape(d0, d1)
+    if cls == "mps":
+        tn = qtn.MatrixProductState([np.eye(d0, dtype=complex), a], shape="lrp")
+        sites = [0, 1]
+    else:
+        ts = [qtn.Tensor(np.eye(d0, dtype=complex), inds=["x0", "k0"], tags=["I0"]), qtn.Tensor(a, inds=["x0", "k1"], tags=["I1"])]
+        tn = qtn.TensorNetwork(ts).view_as_(qtn.TensorNetworkGenVector, sites=(0, 1), site_tag_id="I{}", site_ind_id="k{}")
+        sites = [0, 1]
+    return Geo(cls, tn, sites, "%s from TLC state dims=%s" % (cls, list(dims)), edges=[(0, 1)])
+
+
 # --------------------------------------------------------------------------- site tuple shapes
 def is_asc(geo, where):
     p = [geo.pos[s] for s in where]
